@@ -5,7 +5,7 @@
       allocatable + live + metaTotal + 2 = maxPages
    at every quiescent point is checked on the implementation (conservation oracle, capacity probe,
    Observer stats) after every transaction of long histories. *)
-From VF Require Import Region Freelist Alloc RegionProofs AllocProofs TxAllocProofs MetaAllocProofs.
+From VF Require Import Region Freelist Alloc RegionProofs AllocProofs TxAllocProofs MetaAllocProofs ExtentProofs.
 From VF Require C04.
 
 Theorem C11_alloc_accounting : forall a t n regs cnt a' t',
@@ -60,3 +60,11 @@ Print Assumptions C11_meta_total_in_tx.
 
 Example C11_ex : data_avail (C04.ex_alloc) = 55.
 Proof. reflexivity. Qed.
+
+(* "Such a file never grows beyond its maximum size": inside any write transaction without overflow area that
+   starts from a file within its limit, both end markers stay within the limit *)
+Theorem C11_never_beyond_max_in_transaction : forall a0 p a t,
+  Inv0 a0 -> 0 < maxPages a0 -> a_end (meta a0) <= maxPages a0 -> treach a0 p a t ->
+  a_end (data a) <= maxPages a0 /\ a_end (meta a) <= maxPages a0.
+Proof. exact never_beyond_max_in_tx. Qed.
+Print Assumptions C11_never_beyond_max_in_transaction.
